@@ -84,6 +84,16 @@ func (p *Provider) start(ctx context.Context, ammoFile afero.File) error {
 		if p.Passes != 0 && passNum >= p.Passes {
 			break
 		}
+		if p.Limit != 0 && ammoNum >= p.Limit {
+			break
+		}
+		if ammoNum == 0 {
+			// Nothing to send after whole pass. Next passes will be the same.
+			return errors.New("no ammo in file")
+		}
+		if ctx.Err() != nil {
+			return nil
+		}
 		_, err = ammoFile.Seek(0, 0)
 		if err != nil {
 			return errors.Wrap(err, "Failed to seek ammo file")
